@@ -46,9 +46,10 @@ if __name__ == "__main__":
             clusters[(o["clause"], cfg.get("L"), cfg.get("R"))].append((compact(tr["acts"]) if "acts" in tr else json.dumps(tr, default=repr)[:600], o["detail"][:200], cfg))
     if os.environ.get("DUMP"):
         allv = [(tr, o) for r in results if not r.get("error") for tr, o in r["violations"]]
-        allv.sort(key=lambda x: len(json.dumps(x[0])))
+        allv.sort(key=lambda x: len(repr(x[0])))
         if allv:
-            json.dump({"prop": pid, "trace": allv[0][0], "clause": allv[0][1]["clause"], "detail": allv[0][1]["detail"]}, open(os.environ["DUMP"], "w"), indent=1)
+            from vf.core import jdump
+            open(os.environ["DUMP"], "w").write(jdump({"prop": pid, "part": part, "trace": allv[0][0], "clause": allv[0][1]["clause"], "detail": allv[0][1]["detail"]}))
     print("evaluations", ev, "violations", sum(len(v) for v in clusters.values()))
     for k, v in sorted(clusters.items(), key=lambda kv: -len(kv[1])):
         print("==", k, len(v))
